@@ -59,6 +59,12 @@ func coqExt() string {
 // Coq correspondence case.  nontrivial is decided by the caller (generator statistics) or, for
 // corpus cases, from the dump.
 func (h *harness) runCase(c Case, ds Decls, wantReject string, nontrivial bool, fromGen bool) {
+	h.runCaseM(c, ds, wantReject, nontrivial, fromGen, true)
+}
+
+// runCaseM: model = also emit the Coq correspondence case (false for schemas using functions the
+// model does not have, e.g. javascript: the Go-side oracles still all apply)
+func (h *harness) runCaseM(c Case, ds Decls, wantReject string, nontrivial bool, fromGen bool, model bool) {
 	f, ok := formats[c.Format]
 	if !ok {
 		h.sum.Fail("unknown format in case", c, nil)
@@ -84,8 +90,10 @@ func (h *harness) runCase(c Case, ds Decls, wantReject string, nontrivial bool, 
 			// the correspondence case below reports it
 			h.sum.Hist("schema:rejected-unexpected")
 		}
-		h.cw.Add(fmt.Sprintf("mkCase %s None [] %s []", ds.Coq(), coqExt()),
-			map[string]interface{}{"case": c, "rejected": out.RejectMsg})
+		if model {
+			h.cw.Add(fmt.Sprintf("mkCase %s None [] %s []", ds.Coq(), coqExt()),
+				map[string]interface{}{"case": c, "rejected": out.RejectMsg})
+		}
 		return
 	}
 	if wantReject != "" {
@@ -312,6 +320,9 @@ func (h *harness) runCase(c Case, ds Decls, wantReject string, nontrivial bool, 
 			}
 		}
 	}
+	if !model {
+		return
+	}
 	desc := map[string]interface{}{"case": c, "outcomes": outs}
 	h.sum.Sample(desc)
 	clsTerms := make([]string, len(classes))
@@ -438,7 +449,7 @@ func (h *harness) corpusFile(p string) {
 		h.jsReplay(c, ds)
 		return
 	}
-	h.runCase(c, ds, "", true, false)
+	h.runCaseM(c, ds, "", true, false, !strings.Contains(c.Decls, `"javascript"`))
 }
 
 func main() {
@@ -510,6 +521,9 @@ func main() {
 		}
 		if g.upwards > 0 {
 			sum.Hist("shape:anchored-on-ancestor")
+		}
+		if g.dynArrays > 0 {
+			sum.Hist("shape:array-below-xpath_dynamic")
 		}
 		if g.weird > 0 {
 			sum.Hist("shape:awkward-field-names")
